@@ -1152,3 +1152,110 @@ def run(ctx):
                                "numpy.random.normal(0, s, size) = s * standard normal; Gaussian.sample = mean + sqrt(cov) * randn (scripted)",
                                "floating rounding not modelled: integer cases exact, others within 1e-9 (1e-6 after the Poisson solve)",
                                "Heat1D / Poisson1D solution maps: checked here only through the discrete residual (Poisson) and an independent forward-Euler run (Heat, oracle only); their theory is C18's"])
+
+
+# ------------------------------------------------------------------------------------------------
+# violation protocol
+# ------------------------------------------------------------------------------------------------
+def _rerun(meta):
+    """re-run the driver + independent oracle for one stored case; returns the list of cases it yields"""
+    m = dict(meta.get("meta", meta))
+    h = m.pop("handler", None)
+    cell = m.pop("cell", "replay")
+    for kk in ("obs", "verdict", "observed", "entry"):
+        m.pop(kk, None)
+    if h == "psf" or m.get("tp") in ("psf1d", "psf2d"):
+        return psf_cases(m["kind"], m["n"], m["param"], two_d=(m["tp"] == "psf2d"))
+    if h is None:
+        h = {"deconv1d": "legacy" if m.get("kw", {}).get("use_legacy") else "deconv1d", "deconv2d": "deconv2d", "abel": "abel",
+             "poisson": "poisson", "heat": "heat", "cubic": "cubic"}[m["tp"]]
+    return handle(m, cell, h)
+
+
+def oracle(ctx, meta):
+    probe_state()
+    fails = [c for c in _rerun(meta) if c.impl_fail]
+    if not fails:
+        return None
+    return "; ".join("[%s] %s" % (c.signature, c.impl_fail) for c in fails)[:3000]
+
+
+def classify(meta, detail):
+    m = re.match(r"^\[([^\]]+)\]", detail or "")
+    if m:
+        return m.group(1)
+    return "%s|%s" % (meta.get("tp", "C17"), meta.get("obs", "case"))
+
+
+WITNESSES = {
+    SIG_T: {"tp": "deconv1d", "kw": {"dim": 5, "PSF": [1, 2, 3], "BC": "zero", "phantom": [1, -2, 0, 3, 1], "noise_std": 0.5},
+            "z": [1, 0, -0.5, 0.25, 2], "x": [0.5, 1, -1, 0, 0.25], "handler": "deconv1d"},
+    SIG_L: {"tp": "deconv1d", "kw": {"dim": 6, "PSF": [1, 2, 3, 4, 5, 6], "use_legacy": True, "phantom": [1, -2, 0, 3, 1, 1], "noise_std": 0.5},
+            "z": [1, 0, -0.5, 0.25, 2, 0], "x": [0.5, 1, -1, 0, 0.25, 1], "handler": "legacy"},
+    SIG_D: {"tp": "psf1d", "kind": "defocus", "n": 5, "param": 1, "handler": "psf"},
+    SIG_D0: {"tp": "deconv1d", "kw": {"dim": 6, "PSF": "defocus", "PSF_size": 3, "PSF_param": 0, "phantom": [1, 2, 3, 4, 5, 6], "noise_std": 0.5},
+             "z": [0.0] * 6, "handler": "deconv1d"},
+}
+
+
+def known_witnesses(ctx):
+    probe_state()
+    out = {}
+    for sig, meta in WITNESSES.items():
+        fails = [c for c in _rerun(meta) if c.impl_fail and c.signature == sig]
+        out[sig] = (bool(fails), fails[0].impl_fail if fails else "witness satisfies the property on this tree")
+    return out
+
+
+def search(ctx):
+    """wider search with the oracle alone: the whole lattice again with fresh values"""
+    found = []
+    saved = ctx.tier
+    try:
+        ctx.tier = "quick"
+        for spec, cell, h in specs(ctx):
+            try:
+                for c in handle(spec, cell, h):
+                    if c.impl_fail:
+                        c.meta = dict(c.meta, handler=h, cell=cell)
+                        found.append(c)
+            except Exception:
+                pass
+    finally:
+        ctx.tier = saved
+    return found
+
+
+def replay(ctx, meta):
+    print(json.dumps({k: v for k, v in meta.items() if k != "meta"}, indent=1)[:3000])
+    m = meta.get("meta", meta)
+    print("spec:", json.dumps(m)[:3000])
+    probe_state(force=True)
+    print("tree state:", _STATE)
+    if "no_longer_checks" in meta and "meta" not in meta:
+        for b in meta["no_longer_checks"] if isinstance(meta["no_longer_checks"], list) else []:
+            for c in b.get("cases", [])[:3]:
+                print("--- disagreeing case:", json.dumps(c.get("meta"))[:1500])
+                try:
+                    for cc in _rerun(c["meta"]):
+                        print("   ", cc.cell, "| oracle:", cc.impl_fail or "ok")
+                        print("      implementation vs model term:", cc.expr[:600])
+                except Exception as e:
+                    print("    re-run raised", repr(e))
+        return 0
+    try:
+        cs = _rerun(meta)
+    except Exception as e:
+        print("re-run raised", repr(e))
+        return 1
+    rc = 0
+    for c in cs:
+        print("---", c.cell, c.kind)
+        print("   implementation (observed values inside the term) vs model:", c.expr[:1200])
+        if c.impl_fail:
+            rc = 1
+            print("   ORACLE: [%s] %s" % (c.signature, c.impl_fail))
+        elif c.kind != "ENCLOSURE" and c.expr != "true":
+            r, out = eval_in_coq(IMPORTS, c.expr, tag="replay_C17")
+            print("   model agrees:", out[-200:])
+    return rc
